@@ -121,7 +121,7 @@ fn run_case(dir: &Path, c: &Case) -> Result<Vec<&'static str>, (String, String)>
             return Err(("harness".into(), "no DATA 1".into()));
         }
         let t0 = Instant::now();
-        let first_limit = Duration::from_millis(t * 1000 + 2500);
+        let first_limit = Duration::from_millis(t * 1000 + 3500);
         let mut first_at = None;
         while t0.elapsed() < first_limit {
             if let Some((b, _)) = cl.recv(Duration::from_millis(100)) {
